@@ -556,12 +556,32 @@ func (s *State) projectFiles() map[string]string {
 type TreeSpec struct {
 	Layout string   `json:"layout"`
 	Opts   Opts     `json:"options"`
-	Enc    string   `json:"encoding,omitempty"` // how the user's editor saved the resolver files (see encode)
-	Bodies []string `json:"bodies"`             // body element for Query.alpha, Query.beta, Query.gamma, Mutation.put, Mutation.beta, Item.owner, Query.delta
-	Decls  []string `json:"decls"`              // declaration elements added to the resolver files
+	Enc    string   `json:"encoding,omitempty"`  // how the user's editor saved the resolver files (see encode)
+	Recv   []string `json:"receivers,omitempty"` // receiver shape per position (see recvShapes); nil = all default
+	Bodies []string `json:"bodies"`              // body element for Query.alpha, Query.beta, Query.gamma, Mutation.put, Mutation.beta, Item.owner, Query.delta
+	Decls  []string `json:"decls"`               // declaration elements added to the resolver files
 }
 
 var positions = []string{"queryResolver.Alpha", "queryResolver.Beta", "queryResolver.Gamma", "mutationResolver.Put", "mutationResolver.Beta", "itemResolver.Owner", "queryResolver.Delta"}
+
+// recvOf is the receiver shape the user gave the method at position key.
+func (t TreeSpec) recvOf(key string) string {
+	for i, p := range positions {
+		if p == key && i < len(t.Recv) {
+			return t.Recv[i]
+		}
+	}
+	return ""
+}
+
+// labelOf names the input class of a method for signatures: its receiver shape when that is
+// not the generated one, else its body element.
+func (t TreeSpec) labelOf(key string) string {
+	if sh := t.recvOf(key); sh != "" && bodyByName(t.bodyOf(key)) != nil && bodyByName(t.bodyOf(key)).Recv == "" {
+		return "receiver-" + sh
+	}
+	return t.bodyOf(key)
+}
 
 func (t TreeSpec) bodyOf(key string) string {
 	for i, p := range positions {
@@ -586,6 +606,9 @@ func (t TreeSpec) String() string {
 	enc := ""
 	if t.Enc != "" {
 		enc = " encoding=" + t.Enc
+	}
+	if len(t.Recv) > 0 {
+		enc += " receivers[" + strings.Join(t.Recv, ",") + "]"
 	}
 	return fmt.Sprintf("%s %s%s bodies[%s] decls[%s]", t.Layout, t.Opts, enc, b, strings.Join(t.Decls, ","))
 }
@@ -703,14 +726,42 @@ func recvTypeName(d *ast.FuncDecl) string {
 	if d.Recv == nil || len(d.Recv.List) == 0 {
 		return ""
 	}
+	// the receiver's base type name, whatever the shape: T, *T, (T), *(T), (*T) ...
 	t := d.Recv.List[0].Type
-	if s, ok := t.(*ast.StarExpr); ok {
-		t = s.X
+	for {
+		switch x := t.(type) {
+		case *ast.StarExpr:
+			t = x.X
+			continue
+		case *ast.ParenExpr:
+			t = x.X
+			continue
+		case *ast.Ident:
+			return x.Name
+		}
+		return ""
 	}
-	if id, ok := t.(*ast.Ident); ok {
-		return id.Name
+}
+
+// receiver shapes of the user's resolver methods ("" = (r *T) as generated). The renamed
+// receiver is a body element of its own (receiver-renamed).
+var recvShapes = []string{"", "value", "unnamed", "blank", "paren", "paren-outer"}
+
+// receiverText renders the receiver of shape sh and says whether it has the usable name r.
+func receiverText(sh, name, typ string) (string, bool) {
+	switch sh {
+	case "value":
+		return "(" + name + " " + typ + ")", true
+	case "unnamed":
+		return "(*" + typ + ")", false
+	case "blank":
+		return "(_ *" + typ + ")", false
+	case "paren":
+		return "(" + name + " *(" + typ + "))", true
+	case "paren-outer":
+		return "(" + name + " (*" + typ + "))", true
 	}
-	return ""
+	return "(" + name + " *" + typ + ")", true
 }
 
 // twinChunks builds the colliding hand-written methods of relaxation rel for the resolver
@@ -914,7 +965,16 @@ func userEdit(spec TreeSpec, path, src string) (string, map[string]string, error
 		if doc != "" {
 			out.WriteString(doc + "\n")
 		}
-		fmt.Fprintf(&out, "func (%s *%s) %s%s %s {", rname, recv, fd.Name.Name, params, results)
+		shape := ""
+		if be.Recv == "" {
+			shape = spec.recvOf(key)
+		}
+		rtext, named := receiverText(shape, rname, recv)
+		if shape != "" && named {
+			body = "\t_ = " + rname + ".$ROOT // the body uses the receiver\n" + body
+			body = subst(body)
+		}
+		fmt.Fprintf(&out, "func %s %s%s %s {", rtext, fd.Name.Name, params, results)
 		if be.OneLine && be.Tight && len(uses) == 0 {
 			out.WriteString(strings.TrimSpace(body) + "}\n")
 		} else if be.OneLine && len(uses) == 0 {
